@@ -4,6 +4,7 @@ import re
 
 from ..core import AnalysisError
 from .shared_py import inn
+from . import shared_py as P
 from ..pyfront import unparse, try_const, norm_key
 
 INT_CLOSED = {'Add': '+', 'Sub': '-', 'Mult': '*', 'FloorDiv': '//', 'LShift': '<<', 'RShift': '>>', 'BitOr': '|', 'BitAnd': '&'}
@@ -204,11 +205,24 @@ def name_tables(ctx, L):
             '_collect_constants', cc.site(), 'the model-time table holds constants and enumerators, including those of includes', s[:400])
     ei = model.func('Constant.eval_int')
     s = ws(unparse(ei.node))
-    L.check(inn('return int(self.value)', s) and inn('return calc.eval(self.value, all_constants)', s) and inn('except calc.ParseError: return None', s),
-            'C14g.name-tables', 'Constant.eval_int', ei.site(), 'a constant is its literal integer or the calc evaluation under the table', s)
+    L.check(P.body_is(ei, """
+        try:
+            return int(self.value)
+        except ValueError:
+            try:
+                return calc.eval(self.value, all_constants)
+            except calc.ParseError:
+                return None
+        """), 'C14g.name-tables', 'Constant.eval_int', ei.site(), 'a constant is its literal integer or the calc evaluation under the table', s)
     ti = model.func('to_int')
     s = ws(unparse(ti.node))
-    L.check(inn('return int(x)', s) and inn('val = constants.get(x)', s) and inn('return val if val is not None else calc.eval(x, constants)', s),
+    L.check(P.body_is(ti, """
+        try:
+            return int(x)
+        except ValueError:
+            val = constants.get(x)
+            return val if val is not None else calc.eval(x, constants)
+        """),
             'C14g.name-tables', 'to_int', ti.site(), 'array sizes evaluate through the same table and evaluator', s)
     pn = ctx.py.mod('prophyc.calc').func('Calc.p_expression_name')
     s = ws(unparse(pn.node))
